@@ -566,20 +566,6 @@ theorem resume_top (cfgs : Cfgs) (k : Nat) (ns : State) (i : Nat) (fr : SFrame) 
   simp
   rfl
 
-inductive OutU where
-  | done (st : SSt) (ctr : Nat) (stk : List SFrame) (who : Option (Nat × String × Step))
-  | stuck
-
-/-- the structured unwinding: resume the top caller after its `do`; while the resumed flow runs to its end, go on
-    with its own caller -/
-def unwindS (lib : Lib) (f : Nat) : SSt → Nat → List SFrame → OutU
-  | st, ctr, [] => .done st ctr [] none
-  | st, ctr, fr :: rest =>
-    match runS lib f SUB_FUEL fr.uid fr.name st ctr fr.body (some fr.addr) with
-    | .fell st' ctr' => unwindS lib f st' ctr' rest
-    | .wait st' ctr' a callee frames who => .done st' ctr' (frames ++ { fr with addr := a, callee := callee } :: rest) (some who)
-    | _ => .stuck
-
 def resumeFrom (cfgs : Cfgs) (K F : Nat) (ns : State) (i : Nat) (ch : Bool) : Except Err State :=
   match resumePass true F cfgs ns i ch with
   | .error e => .error e
